@@ -130,7 +130,7 @@ def check_words(ck, tier):
     """E380 exactly for the words whose aligned size exceeds the declared size: every word of 1-4
     members of 1/2/4/8 bytes at every declared size (used by C10 and C11)"""
     import itertools
-    wp = {1: "u8", 2: "i16", 4: "u32", 8: "i64"}
+    wp = {1: "u8", 2: "i16", 4: "u32", 8: "i64", 16: "i128"}
     cases, items = [], []
     k = 0
     for ln in range(1, 5 if tier == "quick" else 6):
@@ -174,10 +174,10 @@ def run(tier):
         for j, (sx, name) in enumerate(words): items.append(("layout", "%s.w%d" % (cid, j), sx))
     # every word of 1-4 primitive members (sizes 1, 2, 4, 8 bytes) at every declared size: accepted iff it fits
     import itertools
-    wp = {1: "u8", 2: "i16", 4: "u32", 8: "i64"}
+    wp = {1: "u8", 2: "i16", 4: "u32", 8: "i64", 16: "i128"}
     k = 0
     for ln in range(1, 5 if tier == "quick" else 6):
-        for seq in itertools.product((1, 2, 4, 8), repeat=ln):
+        for seq in list(itertools.product((1, 2, 4, 8), repeat=ln)) + ([s_ for s_ in itertools.product((1, 8, 16), repeat=ln) if 16 in s_] if ln <= 2 else []):
             for bits in (8, 16, 32, 64, 128):
                 cid = "x%d" % k; k += 1
                 src = "word%d W\n{\n%s}\nfn main() -> u8\n{\n\tprint!(|:W|, \"\\n\");\n\treturn: 0\n}\n" % (bits, "".join("\tm%d: %s,\n" % (i, wp[b]) for i, b in enumerate(seq)))
